@@ -1086,6 +1086,36 @@ func (ctx *RenderContext) EvaluateExpression(node Node) (interface{}, error) {
 	}
 }
 
+// sortedMapKeys returns the keys of a map in a fixed order (strings
+// lexicographically, numbers numerically, anything else by its printed form),
+// so that nothing that walks a map depends on Go's randomised map iteration
+func sortedMapKeys(m reflect.Value) []reflect.Value {
+	keys := m.MapKeys()
+	sort.SliceStable(keys, func(i, j int) bool {
+		a, b := keys[i], keys[j]
+		for a.Kind() == reflect.Interface && !a.IsNil() {
+			a = a.Elem()
+		}
+		for b.Kind() == reflect.Interface && !b.IsNil() {
+			b = b.Elem()
+		}
+		if a.Kind() == b.Kind() {
+			switch a.Kind() {
+			case reflect.String:
+				return a.String() < b.String()
+			case reflect.Int, reflect.Int8, reflect.Int16, reflect.Int32, reflect.Int64:
+				return a.Int() < b.Int()
+			case reflect.Uint, reflect.Uint8, reflect.Uint16, reflect.Uint32, reflect.Uint64:
+				return a.Uint() < b.Uint()
+			case reflect.Float32, reflect.Float64:
+				return a.Float() < b.Float()
+			}
+		}
+		return fmt.Sprint(a) < fmt.Sprint(b)
+	})
+	return keys
+}
+
 // positiveZero turns the floating-point negative zero that arithmetic on
 // numbers can produce (-1 * 0, -0, 0 / -1) into plain zero, which would
 // otherwise print as "-0"
@@ -1883,5 +1913,6 @@ func (ctx *RenderContext) ToString(val interface{}) string {
 		return v.String()
 	}
 
-	return fmt.Sprintf("%v", val)
+	// Anything else is printed like %v, but without memory addresses
+	return stableString(val)
 }
